@@ -79,6 +79,8 @@ func runC04(c *eng.Ctx) {
 		combinedWrittenBack(c, r5, f, len(calls) > 0)
 	}
 
+	r7 := c.Rule("C04.R7", "D:provenance", "(shared with C03.R11) tasks run outside a queue stay outside: a webhook run must not take a failed, waiting task out of its queue (it would never be retried and its contexts are lost if the webhook run fails)", 4)
+	runOutsideQueueTasks(c, r7)
 	r6 := c.Rule("C04.R6", "D:provenance", "the back-off function of a queue derives from CalculateDelay(DefaultInitialDelayOnFailedTask, failureCount); CalculateDelayWithMax returns the initial delay for retry 0 and adds it to every later delay", 3)
 	runC04R6(c, r6)
 }
